@@ -542,6 +542,27 @@ func (c *Ctx) unitGuards(in ssa.Instruction) []lit {
 	return out
 }
 
+// unitGuardsCtx: the unit guards at in, plus — when in sits in a function literal that is called at the
+// one place where it is made (the shape an inlined helper takes) — the unit guards at that call.
+func (c *Ctx) unitGuardsCtx(in ssa.Instruction) []lit {
+	out := c.unitGuards(in)
+	fn := in.Parent()
+	for d := 0; d < 3 && fn != nil && fn.Parent() != nil; d++ {
+		sites := c.sitesOf(fn)
+		if len(sites) != 1 {
+			break
+		}
+		if _, isMC := sites[0].Common().Value.(*ssa.MakeClosure); !isMC {
+			if sites[0].Common().StaticCallee() != fn {
+				break
+			}
+		}
+		out = append(out, c.unitGuards(sites[0])...)
+		fn = sites[0].Parent()
+	}
+	return out
+}
+
 // guardedBy: does some clause guarding in consist only of literals accepted by pred?
 func (c *Ctx) guardedBy(in ssa.Instruction, pred func(l lit) bool) bool {
 	for _, cl := range c.guards(in.Parent())[in.Block()] {
@@ -790,7 +811,7 @@ func fieldOf(v ssa.Value) (owner *types.Named, field string, base ssa.Value, ok 
 		if !ok2 {
 			return nil, "", nil, false
 		}
-		return namedOf(st), s.Field(x.Field).Name(), x.X, true
+		return namedOf(st), s.Field(x.Field).Name(), cellBase(x.X), true
 	case *ssa.Field:
 		s, ok2 := x.X.Type().Underlying().(*types.Struct)
 		if !ok2 {
@@ -799,6 +820,17 @@ func fieldOf(v ssa.Value) (owner *types.Named, field string, base ssa.Value, ok 
 		return namedOf(x.X.Type()), s.Field(x.Field).Name(), x.X, true
 	}
 	return nil, "", nil, false
+}
+
+// cellBase: a struct pointer read back from a single-store variable cell (a receiver or parameter
+// spilled because a function literal captures it) is that value.
+func cellBase(v ssa.Value) ssa.Value {
+	if u, ok := v.(*ssa.UnOp); ok && u.Op == token.MUL {
+		if sv := cellValue(u.X); sv != nil {
+			return cellBase(sv)
+		}
+	}
+	return v
 }
 
 // loadedField: v is a load (*addr) of a struct field, or a Field extraction.
@@ -825,6 +857,45 @@ func (c *Ctx) pathN(v ssa.Value, depth int) string {
 	}
 	if depth > 8 {
 		return "…"
+	}
+	if c.normPath {
+		// name-free rendering: a key built from it survives renamed locals and parameters, range loops
+		// rewritten as index loops, and variables moved into cells because a function literal captures them
+		switch x := v.(type) {
+		case *ssa.Parameter:
+			if x.Parent() != nil {
+				for i, p := range x.Parent().Params {
+					if p == x {
+						return fmt.Sprintf("p%d", i)
+					}
+				}
+			}
+			return "p"
+		case *ssa.FreeVar:
+			if sv := cellValue(x); sv != nil {
+				return c.pathN(sv, depth+1)
+			}
+			return "fv"
+		case *ssa.Alloc:
+			if sv := singleStore(x); sv != nil {
+				return c.pathN(sv, depth+1)
+			}
+			return "var"
+		case *ssa.Phi:
+			return "φ"
+		case *ssa.BinOp:
+			if p, ok := x.X.(*ssa.Phi); ok && x.Op == token.ADD && p.Comment == "rangeindex" {
+				if k, isK := constInt(x.Y); isK && k == 1 {
+					return "φ"
+				}
+			}
+		case *ssa.UnOp:
+			if x.Op == token.MUL {
+				if sv := cellValue(x.X); sv != nil {
+					return c.pathN(sv, depth+1)
+				}
+			}
+		}
 	}
 	switch x := v.(type) {
 	case *ssa.Const:
